@@ -696,6 +696,9 @@ func (ex *Exec) indexSpec(x, i Val) Val {
 	} else {
 		unsup("contract: index of type %T", i)
 	}
+	if iv, ok := x.(IfaceV); ok && iv.Dyn != nil {
+		x = iv.Dyn
+	}
 	switch v := x.(type) {
 	case SliceV:
 		return ex.load(ex.elemPtr(v, it))
